@@ -39,6 +39,7 @@ class Cloner:
         N.resume = W.resume
         N.at_loop = W.at_loop
         N.maxdepth = W.maxdepth
+        N.maxrec = W.maxrec
         N.tags = cp(W.tags)
         N.next_lid = W.next_lid
         N.idtab = {}
